@@ -746,6 +746,8 @@ impl DbInner {
 			self.bg_err.lock().is_none()
 		{
 			log::debug!(target: "parity-db", "Waiting, queue size={}", queue.bytes);
+			#[cfg(pdb_verif)]
+			crate::verif::event("cwait", 0, 0);
 			self.commit_queue_full_cv.wait(&mut queue);
 		}
 
